@@ -91,6 +91,7 @@ type meta struct {
 	Kind     string `json:"kind"`
 	OptShape string `json:"opt_shape"`
 	Foreign  string `json:"foreign,omitempty"`
+	Mislabel string `json:"mislabel,omitempty"`
 	SizeCls  string `json:"size_class"`
 	Target   int    `json:"target,omitempty"`
 }
@@ -1158,7 +1159,101 @@ func (g *gen) structured(cover func(string)) (*dns.Msg, meta) {
 	if g.chance(9) {
 		mt.Foreign = g.injectForeign(m, cover)
 	}
+	// a library OPT whose header does not say OPT (drawn last: every earlier
+	// draw of the case stays what it was)
+	if g.chance(8) && mt.Foreign == "" {
+		g.mislabelOPT(m, &mt, cover)
+	}
 	return m, mt
+}
+
+// mislabelOPT makes the Go type and the header type of an OPT disagree: a
+// *dns.OPT in Extra whose Hdr.Rrtype is not 41 (a record built with
+// new(dns.OPT) and never stamped, or stamped wrong). The library selects the
+// EDNS record by header type only, so such a record is an ordinary record to
+// it: it never carries the extended rcode, its TTL is written as it stands,
+// and a properly typed OPT elsewhere in Extra stays the selected one. The
+// step combines the stray record with what makes the selection observable:
+// an extended rcode, stale bits in the TTL's top octet, a typed OPT in front.
+func (g *gen) mislabelOPT(m *dns.Msg, mt *meta, cover func(string)) {
+	mayGrow := mt.SizeCls == "natural" || mt.SizeCls == "mid"
+	var cand []int
+	for i, rr := range m.Extra {
+		if o, ok := rr.(*dns.OPT); ok && o != nil {
+			cand = append(cand, i)
+		}
+	}
+	var stray *dns.OPT
+	at := -1
+	how := "restamped"
+	switch {
+	case len(cand) > 0 && (!mayGrow || g.chance(75)):
+		at = cand[len(cand)-1]
+		if g.chance(40) {
+			at = cand[g.rng.IntN(len(cand))]
+		}
+		stray = m.Extra[at].(*dns.OPT)
+	case mayGrow:
+		if g.chance(50) {
+			stray = new(dns.OPT) // never stamped at all
+			stray.Hdr.Name = "."
+			if g.chance(50) {
+				stray.Hdr.Class = 1232
+			}
+			how = "unstamped"
+		} else {
+			stray = g.opt(m.Rcode, cover)
+			how = "added"
+		}
+		at = len(m.Extra)
+		if g.chance(30) {
+			at = g.rng.IntN(len(m.Extra) + 1)
+		}
+		m.Extra = insertAt(m.Extra, at, stray)
+	default:
+		return
+	}
+	if how != "unstamped" {
+		switch g.rng.IntN(5) {
+		case 0:
+			stray.Hdr.Rrtype = 0
+		case 1:
+			stray.Hdr.Rrtype = dns.TypeA
+		case 2:
+			stray.Hdr.Rrtype = dns.TypeTXT
+		case 3:
+			stray.Hdr.Rrtype = dns.TypeNULL
+		default:
+			stray.Hdr.Rrtype = uint16(g.uintBits(16))
+			if stray.Hdr.Rrtype == dns.TypeOPT {
+				stray.Hdr.Rrtype = 65001
+			}
+		}
+	}
+	// a typed OPT in front of the stray one
+	if mayGrow && g.chance(45) {
+		typedBefore := false
+		for _, rr := range m.Extra[:at] {
+			if o, ok := rr.(*dns.OPT); ok && o != nil && o != stray && o.Hdr.Rrtype == dns.TypeOPT {
+				typedBefore = true
+			}
+		}
+		if !typedBefore {
+			m.Extra = insertAt(m.Extra, g.rng.IntN(at+1), g.opt(m.Rcode, cover))
+			how += "+typed-before"
+		}
+	}
+	if g.chance(50) {
+		stray.Hdr.Ttl |= uint32(1+g.rng.IntN(255)) << 24
+		how += "+stale-ttl"
+	}
+	if m.Rcode >= 0 && m.Rcode <= 15 && g.chance(45) {
+		m.Rcode = 16 + g.rng.IntN(4080)
+		how += "+ext-rcode"
+	}
+	mt.Mislabel = how
+	mt.OptShape += "/mislabelled"
+	cover("mislabel:opt-" + strings.SplitN(how, "+", 2)[0])
 }
 
 func (g *gen) pickSection(m *dns.Msg) *[]dns.RR {
